@@ -21,6 +21,15 @@ ASSUMPTIONS = ["reconfiguration goes through attribute assignment and the proper
 N_HIST = {"quick": 250, "thorough": 8000}
 
 
+def _not_nothing(dg):
+    """a leaf dump that is not `Nothing()`: as `additionalProperties`, a `Nothing()` element means what `False` means
+    (the generator writes `False` for it; the model's `AdditionalProperties` validator treats element values as truthy)"""
+    while True:
+        d = dg.leaf()
+        if d["cls"] != "Nothing":
+            return d
+
+
 def reconfig_ops(rng, el, dg):
     """One random reconfiguration step applied to the real element; returns a description."""
     ops = []
@@ -37,7 +46,7 @@ def reconfig_ops(rng, el, dg):
         ("const", lambda: rng.choice([1, "a", None, [1], {"a": 1}, True])),
         ("enum", lambda: rng.sample([1, 2, "a", None, True, [1]], rng.choice([1, 2, 3]))),
         ("default", lambda: rng.choice([1, "a", None, [], {"a": 1}, False])),
-        ("additionalProperties", lambda: rng.choice([True, False, dsl.build(dg.leaf())])),
+        ("additionalProperties", lambda: rng.choice([True, False, dsl.build(_not_nothing(dg))])),
         ("additionalItems", lambda: rng.choice([True, False, dsl.build(dg.leaf())])),
         ("items", lambda: rng.choice([dsl.build(dg.leaf()), [dsl.build(dg.leaf())], [dsl.build(dg.leaf()), dsl.build(dg.leaf())]])),
         ("contains", lambda: dsl.build(dg.leaf())),
